@@ -10,6 +10,7 @@ In concrete mode (cross-check / replay) J is torch.autograd.functional.jacobian 
 """
 import ast
 import itertools
+import math
 import random
 
 import numpy as np
@@ -483,6 +484,69 @@ def replay_from_json_options(args):
     return True, "not reproduced"
 
 
+# range of the arithmetic: round trip and log-Jacobian over the whole range a float can take in the transform's domain (the symbolic
+# obligations above decide the identities over the reals; these decide that the way they are spelled survives rounding)
+_RANGE_X = [-700.0, -300.0, -100.0, -38.0, -30.0, -25.0, -10.0, -1.0, 0.0, 1.0, 10.0, 19.9, 20.5, 36.0, 100.0, 500.0, 750.0]
+
+
+def _range_problems(kind, dtype_name):
+    import mpmath
+    from torchtree.distributions import transforms as T
+    mpmath.mp.dps = 50
+    dt = getattr(torch, dtype_name)
+    t = {"softplus": T.SoftPlusTransform, "cumsumsoftplus": T.CumSumSoftPlusTransform, "cumsumexp": T.CumSumExpTransform, "log": T.LogTransform}[kind]()
+    lim = 700.0 if dt == torch.float64 else 80.0
+    tol = 1e-8 if dt == torch.float64 else 4e-6     # torch.nn.functional.softplus itself switches to the identity above 20 (error < exp(-20) = 2e-9)
+    bad = []
+    xs = [v for v in _RANGE_X if abs(v) <= lim or (kind in ("softplus", "cumsumsoftplus") and v > 0 and dt == torch.float64)]
+    if kind == "log":
+        pts = [[math.exp(v)] for v in xs if abs(v) <= lim]
+    elif kind == "softplus":
+        pts = [[v] for v in xs]
+    else:
+        # cumulative transforms: the partial sums sweep the range
+        pts = [[v, 0.5] for v in xs] + [[1.0, v - 1.0] for v in xs]
+        if kind == "cumsumexp":
+            pts = [p_ for p_ in pts if all(abs(c) <= lim for c in (p_[0], p_[0] + p_[1]))]
+    for p_ in pts:
+        x = torch.tensor(p_, dtype=dt)
+        y = t(x)
+        back = t.inv(y)
+        ok = bool(torch.isfinite(back).all()) and all(abs(float(b) - float(a)) <= tol * max(1.0, abs(float(a))) for a, b in zip(x, back))
+        if not ok:
+            bad.append("inv(forward(%s)) = %s (forward value %s)" % (p_, back.tolist(), y.tolist()))
+            continue
+        # log-Jacobian against the exact derivative in 50-digit arithmetic (diagonal of a triangular Jacobian)
+        sums = list(itertools.accumulate([mpmath.mpf(float(c)) for c in x])) if kind.startswith("cumsum") else [mpmath.mpf(float(c)) for c in x]
+        if kind in ("softplus", "cumsumsoftplus"):
+            want = sum(-mpmath.log1p(mpmath.exp(-s_)) for s_ in sums)
+        elif kind == "cumsumexp":
+            want = sum(sums)
+        else:
+            want = sum(-mpmath.log(s_) for s_ in sums)
+        got = t.log_abs_det_jacobian(x, y)
+        got = float(got.sum())
+        if not (abs(got - float(want)) <= 10 * tol * max(1.0, abs(float(want)))):
+            bad.append("log|det J| at %s is %r, exact %.12g" % (p_, got, float(want)))
+    return bad, len(pts)
+
+
+def ob_range(kind, dtype_name):
+    def body():
+        bad, n = _range_problems(kind, dtype_name)
+        if bad:
+            raise Refuted("%s transform, %s: %s" % (kind, dtype_name, "; ".join(bad[:3])), witness={"kind": kind, "dtype": dtype_name, "problems": bad[:10]},
+                          replay={"kind": "custom", "contract": "C07", "func": "replay_range", "args": {"kind": kind, "dtype": dtype_name}}, confirmed=True)
+        return {"backend": "concrete (real torch vs 50-digit arithmetic)", "cases": n, "bounded": "grid %s" % _RANGE_X,
+                "statement": "%s, %s: inverse∘forward returns the input and the log-Jacobian equals the exact one on %d points spanning the float range of the domain" % (kind, dtype_name, n)}
+    return Ob("C07.range.%s[%s]" % (kind, dtype_name), "B", body, clause="inverse after forward returns the input and the log-Jacobian is the true one at every point of the domain (float range, bounded grid)", funcs=FUNCS)
+
+
+def replay_range(args):
+    bad, _ = _range_problems(args["kind"], args["dtype"])
+    return (False, "; ".join(bad[:3])) if bad else (True, "held")
+
+
 def ob_ladj_raises(kind_name, ctor):
     def body():
         t = ctor()
@@ -587,6 +651,9 @@ def obligations(tier, seed):
     for kind in ("log", "cumsumexp", "cumsumsoftplus", "softplus", "cumsum"):
         obs.append(ob_setter_aliasing(kind))
     obs.append(ob_from_json_options())
+    for kind in ("softplus", "cumsumsoftplus", "cumsumexp", "log"):
+        for dtype_name in ("float64", "float32"):
+            obs.append(ob_range(kind, dtype_name))
     for dim in (1, 2, 3):
         add("C07.trilexp[dim=%d]" % dim, "scn_trilexp", (dim,), "log-Jacobian and inverse (triangular-exp)")
     import torchtree.distributions.transforms as tr
